@@ -154,20 +154,32 @@ def forbidden_scan():
 
 
 def print_assumptions(module, theorems):
-    """runs coqc on a scratch file; returns {theorem: assumptions text}"""
+    """runs coqc on scratch files (the theorems are spread over up to 8 concurrent coqc runs: Print Assumptions on a theorem with a
+    large proof closure takes ~10 s); returns {theorem: assumptions text}"""
     d = tempfile.mkdtemp(prefix="wv_pa_")
     try:
-        body = "From Wencry Require Import %s.\n" % (module if isinstance(module, str) else " ".join(module))
-        for t in theorems:
-            body += 'Goal True. idtac "@@BEGIN %s". Abort.\nPrint Assumptions %s.\nGoal True. idtac "@@END". Abort.\n' % (t, t)
-        p = os.path.join(d, "PA.v")
-        open(p, "w").write(body)
-        rc, out = sh(["coqc", "-Q", COQ, "Wencry", p], timeout=600)
+        head = "From Wencry Require Import %s.\n" % (module if isinstance(module, str) else " ".join(module))
+        n = max(1, min(8, len(theorems)))
+        groups = [theorems[i::n] for i in range(n)]
+
+        def one(ig):
+            i, g = ig
+            body = head
+            for t in g:
+                body += 'Goal True. idtac "@@BEGIN %s". Abort.\nPrint Assumptions %s.\nGoal True. idtac "@@END". Abort.\n' % (t, t)
+            p = os.path.join(d, "PA%d.v" % i)
+            open(p, "w").write(body)
+            try:
+                return sh(["coqc", "-Q", COQ, "Wencry", p], timeout=900)
+            except subprocess.TimeoutExpired:
+                return 124, "Print Assumptions timed out"
         res = {}
-        for m in re.finditer(r"@@BEGIN (\S+)\n(.*?)@@END", out, flags=re.S):
-            res[m.group(1)] = " ".join(m.group(2).split())
-        if rc != 0:
-            res["_error"] = out[-2000:]
+        with ThreadPoolExecutor(max_workers=n) as ex:
+            for rc, out in ex.map(one, list(enumerate(groups))):
+                for m in re.finditer(r"@@BEGIN (\S+)\n(.*?)@@END", out, flags=re.S):
+                    res[m.group(1)] = " ".join(m.group(2).split())
+                if rc != 0:
+                    res["_error"] = out[-2000:]
         return res
     finally:
         shutil.rmtree(d, ignore_errors=True)
